@@ -358,6 +358,78 @@ def cmpx_close(a, b, tol=1e-9):
     return cmpx.close(a, b, tol)
 
 
+# ---- the conditional axes -x obs / -x fcst: which cases belong to the event of a row -----------------------------
+def condaxis_strategy(tier):
+    from .. import gen
+
+    @st.composite
+    def s(draw):
+        spec = draw(gen.dataset(max_inputs=2, clim=False, flavor="det", core_max=3, extra_max=1, allow_drop=False, allow_obsless=False,
+                                allow_all_missing=False))
+        vals = sorted(set(v for d in spec["inputs"] for nm in ("obs", "fcst") for pl in (d.get(nm) or []) for row in pl for v in row if v is not None)) or [0.0]
+        cand = sorted(set(vals + [vals[0] - 1, vals[-1] + 1] + [v + 0.125 for v in vals]))
+        b = draw(st.sampled_from(model.BIN_TYPES))
+        k = draw(st.integers(2, 4)) if b in model.WITHIN_TYPES else draw(st.integers(1, 3))
+        T = sorted(draw(st.lists(st.sampled_from(cand), min_size=min(k, len(cand)), max_size=min(k, len(cand)), unique=True)))
+        if b in model.WITHIN_TYPES and len(T) < 2:
+            b = "above="
+        return {"cond_axis": draw(st.sampled_from(["obs", "fcst"])), "metric": draw(st.sampled_from(["obs", "fcst", "mae", "bias"])),
+                "spec": spec, "bin_type": b, "thresholds": T, "kind": draw(st.sampled_from(["text", "text", "netcdf"]))}
+    return s()
+
+
+_ccount = [0]
+
+
+def check_condaxis(case, ctx):
+    """-m M -x obs|fcst -r T -b B -agg count: row k counts the valid pairs whose observation (forecast) lies in the k-th documented
+    event - the same events, ends and all, as everywhere else."""
+    from .. import cmpx, drive, mat
+    if "cond_axis" not in case:
+        return check_case(case, ctx)
+    spec = case["spec"]
+    ds = model.DS(spec)
+    if ds.empty:
+        return
+    _ccount[0] += 1
+    d = os.path.join(ctx.scratch, "ca%d" % _ccount[0])
+    os.makedirs(d)
+    paths, _ = mat.write_files(spec, d, case["kind"])
+    axis, name, b, T = case["cond_axis"], case["metric"], case["bin_type"], case["thresholds"]
+    args = paths + ["-m", name, "-x", axis, "-r", ",".join(repr(float(t)) for t in T), "-b", b, "-agg", "count", "-type", "csv"]
+    r = drive.run(args)
+    ctx.evals += 1
+    ctx.label("cond-axis/%s/-x %s" % (name, axis))
+    if r.exc is not None:
+        ctx.fail("C07/cond-axis/exc/" + r.exc_key, case, r.tb[-600:])
+        return
+    if r.exit not in (None, 0):
+        ctx.label("cond-axis/error-exit")
+        return
+    h, rows = drive.parse_csv(r.lines())
+    evs = model.events(b, T)
+    n_in = len(spec["inputs"])
+    if len(rows) != len(evs):
+        ctx.fail("C07/cond-axis/rows", case, "%d rows for %d events" % (len(rows), len(evs)))
+        return
+    vals = set(v for dd in spec["inputs"] for nm in ("obs", "fcst") for pl in (dd.get(nm) or []) for row in pl for v in row if v is not None)
+    if any(t in vals for t in T):
+        ctx.nt(("cond-axis", axis, name, b, T, [dd["fcst"] for dd in spec["inputs"]], [dd["obs"] for dd in spec["inputs"]]))
+    for k, (t0, t1) in enumerate(evs):
+        for i in range(n_in):
+            if name in ("obs", "fcst") and name == axis:
+                cs = [(c[0], c[0]) for c in ds.cases([(name,)], i, "no", 0)]
+                pos = 0
+            else:
+                cs = ds.cases([("obs",), ("fcst",)], i, "no", 0)
+                pos = 0 if axis == "obs" else 1
+            e = sum(1 for c in cs if model.in_event(b, c[pos], t0, t1))
+            g = float(rows[k][len(rows[k]) - n_in + i])
+            if not ((e == 0 and (g == 0 or math.isnan(g))) or cmpx.close(g, e)):
+                ctx.fail("C07/cond-axis/count", case, "-m %s -x %s -b %s -r %r row %d input %d: %r cases, the documented event holds %d" % (name, axis, b, T, k, i, g, e))
+                return
+
+
 def campaigns(tier):
     return [
         Enum("relations", items, check_case, "8 bin types x 19 threshold lists x complete relation set"),
@@ -365,4 +437,5 @@ def campaigns(tier):
         Hyp("ensemble-prob", ens_strategy, check_ens, quick=800, thorough=20000),
         Hyp("coverage", coverage_strategy, check_coverage, quick=480, thorough=10000, budget_quick=40, budget_thorough=900),
         Hyp("counts-figure", counts_strategy, check_counts, quick=640, thorough=12000, budget_quick=60, budget_thorough=1200),
+        Hyp("conditional-axes", condaxis_strategy, check_condaxis, quick=480, thorough=12000, budget_quick=40, budget_thorough=900),
     ]
